@@ -80,4 +80,45 @@ structure MatcherOK (M : List BPair → List BPair → Nat) : Prop where
   refl     : ∀ a, M a a = a.length
   symm_pos : ∀ a b, 0 < M a b ↔ 0 < M b a
 
+/-! ### vocabulary for conflict resolution (C15, C01) -/
+
+/-- no two members are equal in Python's sense (labels occur once inside a segment) -/
+def PyNodup (xs : List APos) : Prop := xs.Pairwise (fun a b => a.pyEq b = false)
+
+def FirstIsPair (xs : List APos) : Prop := ∃ p, xs.head? = some (APos.pair p)
+def LastIsPair (xs : List APos) : Prop := ∃ p, xs.getLast? = some (APos.pair p)
+
+/-- pairs strictly ascending on both maps in list order (coordinates; strands are handled by the
+    mirrored query coordinates) -/
+def PairsAscending (xs : List APos) : Prop :=
+  (pairsOf xs).Pairwise (fun a b => a.r.pos < b.r.pos ∧ a.q.pos < b.q.pos)
+
+/-- what the resolver may assume of a segment used on the left of a step -/
+structure LeftOK (s : Seg) : Prop where
+  nodup : PyNodup s.items
+  last  : s.items = [] ∨ LastIsPair s.items
+  asc   : PairsAscending s.items
+
+/-- … and on the right of a step -/
+structure RightOK (s : Seg) : Prop where
+  nodup : PyNodup s.items
+  first : s.items = [] ∨ FirstIsPair s.items
+  asc   : PairsAscending s.items
+
+/-- a segment as the factory cuts it: empty, or starting and ending on a pair (C13 (b)) -/
+def FactoryLike (s : Seg) : Prop := LeftOK s ∧ RightOK s
+
+/-- distinct labels have distinct coordinates across the two segments -/
+def StrictCoords (a b : Seg) : Prop :=
+  ∀ p ∈ a.pairs, ∀ p' ∈ b.pairs, (p.r.pos = p'.r.pos → p.r = p'.r) ∧ (p.q.pos = p'.q.pos → p.q = p'.q)
+
+/-- every pair of `a` lies strictly before every pair of `b` on both maps: no shared label,
+    no crossing -/
+def Separated (a b : Seg) : Prop :=
+  ∀ p ∈ a.pairs, ∀ p' ∈ b.pairs, p.r.pos < p'.r.pos ∧ p.q.pos < p'.q.pos
+
+/-- two segments name the same reference or query label (decidable, for closed witnesses) -/
+def sharesLabel (a b : Seg) : Bool :=
+  a.pairs.any fun p => b.pairs.any fun p' => decide (p.r.site = p'.r.site) || decide (p.q.site = p'.q.site)
+
 end Coma.Spec
